@@ -158,7 +158,15 @@ def run_case(case):
             # a clone made through the proxy AFTER notes exist on the remote: the clone hook has to bring them along
             k = len(net.clones)
             pth = os.path.join(net.w.root, "clone%d" % k)
-            pr = net.w.git("clone", "-q", net.remote, pth, cwd=net.w.root)
+            how = random.Random("%s:%s:late" % (seed, case["index"])).choice(["abs", "rel", "dash-C", "dash-C-c"])
+            if how == "abs":
+                pr = net.w.git("clone", "-q", net.remote, pth, cwd=net.w.root)
+            elif how == "rel":
+                pr = net.w.git("clone", "-q", net.remote, os.path.basename(pth), cwd=net.w.root)
+            elif how == "dash-C":
+                pr = net.w.git("-C", net.w.root, "clone", "-q", net.remote, os.path.basename(pth), cwd="/")
+            else:
+                pr = net.w.git("-C", net.w.root, "-c", "verif.ctx=1", "clone", "-q", net.remote, os.path.basename(pth), cwd="/")
             if pr.rc == 0:
                 net.w.git("checkout", "-q", "-b", "c%d" % k, cwd=pth, plain=True)
                 net.clones.append(pth)
@@ -167,15 +175,15 @@ def run_case(case):
                 have = set(net.w.ogit("rev-list", "--all", cwd=pth).split())
                 m = net.loc_map(pth)
                 rm = net.loc_map(net.remote)
-                for c in have:
-                    if c in rm and c not in m:
-                        net.viol.append(dict(kind="C10/late-clone-missing-note", commit=c))
+                # (the property asks for convergence after the closing round; whether the clone hook already brought the notes along is
+                # counted, not asserted - the invocation-context side of it is pinned by the C12 witness for D81)
+                net.late_clone_missing = sum(1 for c in have if c in rm and c not in m)
                 if case.get("late_clone") == "commit":
                     net.step(k, "commit")
         if not net.viol:
             net.close()
         commits = len(net.author_note)
-        return dict(index=case["index"], viol=net.viol, stats=dict(steps=len(net.log), commits_with_notes=commits, locations=len(progs) + 1),
+        return dict(index=case["index"], viol=net.viol, stats=dict(steps=len(net.log), commits_with_notes=commits, locations=len(progs) + 1, late_clone_notes_missing_at_clone_time=getattr(net, "late_clone_missing", 0)),
                     sig=json.dumps([progs, order, bool(case.get("parallel_push")), case.get("late_clone")]), log=net.log, nontrivial=commits > 0 and any("push" in p for p in progs),
                     inconclusive=None, sample=dict(programs=progs, schedule=order, log=net.log))
     finally:
